@@ -223,6 +223,8 @@ theorem drainLoop_pres (w : Nat) : ∀ (q : List Entry) (c : Core),
       List.Sublist.append (List.Sublist.refl _) (by simp [sids])
     unfold drainLoop
     split
+    · exact ⟨rfl, id, rfl, rfl, fun _ => ⟨rfl, List.Sublist.refl _⟩, fun _ h => by cases h⟩
+    split
     · obtain ⟨h1, h2, h3, h4, h5⟩ := hdrop .expired
       obtain ⟨i1, i2, i3, i4, i5, i6⟩ := ih (c.emit (.qdrop e.sid c.now .expired))
       refine ⟨by rw [i1, h1], fun h => h2 (i2 h), i3.trans h3, i4.trans h4, fun h => ?_, i6⟩
